@@ -95,6 +95,14 @@ def heap_pairing_rules(ctx, add):
             probs_fed.append("a path does not start by feeding the sketch")
         tree_ins = [e for e in evs if self_field(e) == "tree" and e.get("name") == "insert"]
         tree_rem = [e for e in evs if self_field(e) == "tree" and e.get("name") == "remove"]
+        # `tree.pop_first()` removes the smallest entry: the same as remove(tree.iter().next())
+        for e in evs:
+            if self_field(e) == "tree" and e.get("name") == "pop_first":
+                e2 = dict(e)
+                e2["name"] = "remove"
+                e2["args"] = list(e["args"][:1]) + [("elem", ("field", selfp, "tree"))]
+                tree_rem.append(e2)
+                evs[evs.index(e)] = e2
         map_ins = [e for e in evs if self_field(e) == "obj2count" and e.get("name") == "insert"]
         map_rem = [e for e in evs if self_field(e) == "obj2count" and e.get("name") == "remove"]
         map_upd = [e for e in evs if self_field(e) == "obj2count" and e["how"] == "store"]
